@@ -4,6 +4,7 @@ import (
 	"bytes"
 	"encoding/json"
 	"fmt"
+	"math"
 	"math/rand"
 	"os"
 	"path/filepath"
@@ -589,6 +590,24 @@ func (c20) Case(c *core.Ctx) {
 			e := x2jw.XmlMsgsFromReader(plainReader{bytes.NewReader(bad)}, func(m map[string]interface{}) bool { nmsg++; walk(m); return true }, func(error) bool { nerr++; return nerr < 20 })
 			cmp("x2j-wrapper.XmlMsgsFromReader (after an ill-formed message)", allStrings && nerr > 0 && nmsg >= 1, core.D{"stream": string(bad), "messages": nmsg, "errors": nerr, "all_leaves_strings": allStrings, "err": fmt.Sprint(e)})
 			c.Count("bulk:resumed-after-ill-formed-message")
+		}
+		if r.Intn(4) == 0 {
+			// a message that cannot be converted (NaN cast to a float has no JSON form): the error handler is told, and when it
+			// says stop the function returns that error - for the Map form nothing fails, all three messages arrive
+			mxj.CastNanInf(true)
+			x2jw.CastNanInf(true)
+			nanStream := []byte("<a>1</a><n><v>NaN</v></n><b>2</b>")
+			var gotJ []string
+			nerr := 0
+			e := x2jw.XmlMsgsFromReaderAsJson(plainReader{bytes.NewReader(nanStream)}, func(s string) bool { gotJ = append(gotJ, s); return true }, func(error) bool { nerr++; return false }, true)
+			_, wantErr := mxj.Map{"v": math.NaN()}.Json()
+			cmp("x2j-wrapper.XmlMsgsFromReaderAsJson (message without a JSON form)", wantErr != nil && nerr == 1 && e != nil && len(gotJ) == 1, core.D{"stream": string(nanStream), "messages": fmt.Sprint(gotJ), "error_handler_calls": nerr, "returned_error": fmt.Sprint(e)})
+			nm := 0
+			e = x2jw.XmlMsgsFromReader(plainReader{bytes.NewReader(nanStream)}, func(m map[string]interface{}) bool { nm++; return true }, func(error) bool { return false }, true)
+			cmp("x2j-wrapper.XmlMsgsFromReader (NaN cast)", e == nil && nm == 3, core.D{"stream": string(nanStream), "messages": nm, "returned_error": fmt.Sprint(e)})
+			mxj.CastNanInf(false)
+			x2jw.CastNanInf(false)
+			c.Count("bulk:message-without-json-form")
 		}
 		dir := c19scratch()
 		fn := filepath.Join(dir, "c20.xml")
